@@ -227,3 +227,152 @@ class ConvertRule(Contract):
 
     def frame_ok(self, I, inp, obj, name):
         return False
+
+
+CBm = "sigma.conversion.base"
+PPm = "sigma.processing.pipeline"
+
+
+@register
+class FinalizeQuery(Contract):
+    """Backend.finalize_query: the query goes through the finalizer of the REQUESTED output format (rule, query, index, state) and then
+    through the post-processing items of the combined pipeline; an unknown format is a backend error"""
+    id = "C08.Backend.finalize_query"
+    target = f"{CBm}:Backend.finalize_query"
+    props = ("C08", "C14")
+    cases = ("default", "other", "unknown")
+
+    def args(self, I, case):
+        idx = I.E.index
+        log = []
+
+        def fq(name):
+            def f(I2, a, k):
+                r = SObj("FormatQuery", {"by": name, "a": list(a)})
+                log.append(("format", name))
+                return r
+            return NativeFn("finalize_query_" + name, f)
+
+        def pq(I2, a, k):
+            log.append(("postprocess", a[0], a[1]))
+            return SObj("Postprocessed", {"of": a[1], "rule": a[0]})
+        pipe = SObj("Pipeline", {"postprocess_query": NativeFn("postprocess_query", pq)})
+        fmt = {"default": "default", "other": "other", "unknown": "nope"}[case]
+        me = SObj(idx.lookup(f"{CBm}:Backend"), {"formats": {"default": "d", "other": "o"}, "finalize_query_default": fq("default"), "finalize_query_other": fq("other"), "last_processing_pipeline": pipe}, lazy=True)
+        rule, q, st, i = SObj("Rule", {}), SObj("Query", {}), SObj("State", {}), I.fresh("index", "int")
+        return {"self": me, "args": [rule, q, i, st, fmt], "log": log, "rule": rule, "q": q, "st": st, "i": i, "case": case}
+
+    def post(self, I, inp, r):
+        c, log, case = I.ctx, inp["log"], inp["case"]
+        c.require(case != "unknown", "an unknown output format is rejected")
+        ok = isinstance(r, SObj) and r.cls == "Postprocessed" and isinstance(r.fields["of"], SObj) and r.fields["of"].cls == "FormatQuery"
+        c.require(ok, "the result is the post-processed format-specific query")
+        if ok:
+            fqr = r.fields["of"]
+            c.require(fqr.fields["by"] == case and fqr.fields["a"][0] is inp["rule"] and fqr.fields["a"][1] is inp["q"] and fqr.fields["a"][2] is inp["i"] and fqr.fields["a"][3] is inp["st"],
+                      f"finalize_query_{case} receives rule, query, index and state")
+            c.require(r.fields["rule"] is inp["rule"] and [x[0] for x in log] == ["format", "postprocess"], "format-specific finalisation first, then post-processing, each once")
+
+    def raises(self, I, inp, exc):
+        I.ctx.require(exc_is(I, exc, "SigmaBackendError") and inp["case"] == "unknown" and not inp["log"], f"SigmaBackendError exactly for an unknown format, before anything runs (got {exc_name(exc)})", kind="SAFE")
+
+    def frame_ok(self, I, inp, obj, name):
+        return False
+
+
+@register
+class FinalizeOutput(Contract):
+    """Backend.finalize: all queries go through the output finalizer of the requested format and then through the finalizers of the combined pipeline"""
+    id = "C08.Backend.finalize"
+    target = f"{CBm}:Backend.finalize"
+    props = ("C08", "C14")
+    cases = ("default", "other", "unknown")
+
+    def args(self, I, case):
+        idx = I.E.index
+        log = []
+        fo = lambda name: NativeFn("finalize_output_" + name, lambda I2, a, k: (log.append(("format", name)), SObj("FormatOutput", {"by": name, "of": a[0]}))[1])
+        pipe = SObj("Pipeline", {"finalize": NativeFn("finalize", lambda I2, a, k: (log.append(("pipeline",)), SObj("Finalized", {"of": a[0]}))[1])})
+        fmt = {"default": "default", "other": "other", "unknown": "nope"}[case]
+        me = SObj(idx.lookup(f"{CBm}:Backend"), {"formats": {"default": "d", "other": "o"}, "finalize_output_default": fo("default"), "finalize_output_other": fo("other"), "last_processing_pipeline": pipe}, lazy=True)
+        qs = [SObj("Q", {}), SObj("Q", {})]
+        return {"self": me, "args": [qs, fmt], "log": log, "qs": qs, "case": case}
+
+    def post(self, I, inp, r):
+        case = inp["case"]
+        I.ctx.require(case != "unknown", "an unknown output format is rejected")
+        ok = isinstance(r, SObj) and r.cls == "Finalized" and isinstance(r.fields["of"], SObj) and r.fields["of"].cls == "FormatOutput"
+        I.ctx.require(ok and r.fields["of"].fields["by"] == case and r.fields["of"].fields["of"] is inp["qs"] and [x[0] for x in inp["log"]] == ["format", "pipeline"],
+                      f"finalize_output_{case}(queries), then the pipeline's finalizers, each once")
+
+    def raises(self, I, inp, exc):
+        I.ctx.require(exc_is(I, exc, "SigmaBackendError") and inp["case"] == "unknown" and not inp["log"], f"SigmaBackendError exactly for an unknown format (got {exc_name(exc)})", kind="SAFE")
+
+    def frame_ok(self, I, inp, obj, name):
+        return False
+
+
+@register
+class PipelinePostprocessQuery(Contract):
+    """ProcessingPipeline.postprocess_query: the post-processing items are applied in order, each to the result of the previous one; the
+    identifiers of the items that applied are recorded"""
+    id = "C08.ProcessingPipeline.postprocess_query"
+    target = f"{PPm}:ProcessingPipeline.postprocess_query"
+    props = ("C08", "C14", "C13")
+    cases = tuple(c for n in (0, 1, 2, 3) for c in __import__("itertools").product((False, True), repeat=n))
+
+    def args(self, I, case):
+        idx = I.E.index
+        items, chain = [], []
+        rule = SObj("Rule", {})
+        q0 = SObj("Query", {}, ghost={"n": 0})
+        for i, applied in enumerate(case):
+            def ap(I2, a, k, i=i, applied=applied):
+                chain.append((i, a[0], a[1]))
+                return (SObj("Query", {}, ghost={"n": i + 1, "from": a[1]}), applied)
+            items.append(SObj("Item", {"apply": NativeFn("apply", ap), "identifier": f"id{i}" if i != 1 else None}))
+        ids = {"earlier"}
+        me = SObj(idx.lookup(f"{PPm}:ProcessingPipeline"), {"postprocessing_items": items, "applied_ids": ids}, lazy=True)
+        return {"self": me, "args": [rule, q0], "chain": chain, "rule": rule, "q0": q0, "ids": ids, "case": case}
+
+    def post(self, I, inp, r):
+        c, chain, case = I.ctx, inp["chain"], inp["case"]
+        c.require([x[0] for x in chain] == list(range(len(case))) and all(x[1] is inp["rule"] for x in chain), "every item is applied once, in order, for this rule")
+        prev = inp["q0"]
+        for x in chain:
+            c.require(x[2] is prev or (isinstance(x[2], SObj) and x[2].ghost.get("n") == x[0] and (x[0] == 0 or x[2].ghost.get("from") is not None)), "each item receives the result of the previous one")
+            prev = None
+        if case:
+            c.require(isinstance(r, SObj) and r.ghost.get("n") == len(case), "the result of the last item is returned")
+        else:
+            c.require(r is inp["q0"], "without items the query is returned unchanged")
+        want = {"earlier"} | {f"id{i}" for i, ap_ in enumerate(case) if ap_ and i != 1}
+        c.require(set(inp["ids"]) == want, f"identifiers of exactly the items that applied are recorded: {sorted(want)}")
+
+    def frame_ok(self, I, inp, obj, name):
+        return False
+
+
+@register
+class PipelineFinalize(Contract):
+    """ProcessingPipeline.finalize: the finalizers are applied in order, each to the output of the previous one"""
+    id = "C08.ProcessingPipeline.finalize"
+    target = f"{PPm}:ProcessingPipeline.finalize"
+    props = ("C08", "C14")
+    cases = (0, 1, 2, 3)
+
+    def args(self, I, case):
+        fins = [SObj("Finalizer", {"apply": NativeFn("apply", (lambda i: lambda I2, a, k: SObj("Out", {"by": i, "of": a[0]}))(i))}) for i in range(case)]
+        out0 = SObj("Out", {"by": -1})
+        return {"self": SObj(I.E.index.lookup(f"{PPm}:ProcessingPipeline"), {"finalizers": fins}, lazy=True), "args": [out0], "out0": out0, "case": case}
+
+    def post(self, I, inp, r):
+        x, n = r, inp["case"]
+        ok = True
+        for i in reversed(range(n)):
+            ok = ok and isinstance(x, SObj) and x.fields.get("by") == i
+            x = x.fields.get("of") if ok else None
+        I.ctx.require(ok and x is inp["out0"], "finalizer n-1 ( ... finalizer 0 (output))")
+
+    def frame_ok(self, I, inp, obj, name):
+        return False
